@@ -354,6 +354,17 @@ structure Want where
   skip   : Int := 0
 deriving Repr
 
+/-- decoding of the request's extensions; `none` if one of them is malformed. -/
+def Ext.want? (e : Ext) : Option Want :=
+  match e.key, e.ignore, e.skip with
+  | .bad, _, _ => none
+  | _, .bad, _ => none
+  | _, _, .bad => none
+  | k, ig, sk =>
+    some { key := match k with | .ok k => some k | _ => none
+           ignore := match ig with | .ok ls => ls | _ => []
+           skip := match sk with | .ok n => n | _ => 0 }
+
 /-- block attachment along the visited links: the i-th link (counting from 1) carries its block iff
 the block is present, `i > skip`, the cid is not excluded (do-not-send-cids, or in use by another
 request in progress in the dedup scope), and the block has not been traversed earlier by this
